@@ -59,6 +59,7 @@ class InternalCompiler(Compiler):
             # 2.2 Map iret qubit to the symbol. A named qubit leaves the ancilla set, also a
             # __ temporary: it can be read more than once, the first statement that reads it
             # must not uncompute it
+            self.expqmap.remove_symbol(sym)  # computed from the value sym had before
             self.expqmap[sym] = iret
             qc.map_qubit(sym, iret, promote=True)
 
